@@ -362,3 +362,51 @@ def replay_begline_nesting(o0, o1, o2, o3, o4, o5):
         if any(k in found for k in kinds_forbidden):
             bad.append((doc, [k for k in found if k in kinds_forbidden]))
     return ("parse(" + repr(bad[0][0] if bad else "{{t|[[a|b]]\n x|c}}") + ")", bool(bad), f"beginning-of-line syntax is interpreted inside an argument list after a nested construct: {bad[:2]}")
+
+
+# ---------------------------------------------------------------- cell separators inside an open nested construct are text
+INNER_KINDS = ["HTML", "LINK", "TEMPLATE", "URL"]
+
+
+def sep_inside_step(inner: int, open_kind: int, tok: int, ch: str) -> bool:
+    """A table cell whose content has an open inline HTML element / link / template / external link: the mid-line tokens
+    `!!`, `!` (every kind) and `||` (HTML element) do not end the cell - the stack stays as it is and the token becomes text
+    of the open construct (for `||` inside a link/template it is the argument separator, decided by Ob6)."""
+    root, table, row = build(True, False, False, 0, open_kind, False, "a", False)
+    kind = getattr(K, INNER_KINDS[inner])
+    node = _parser_push(ctx, kind)
+    if kind == K.HTML:
+        node.sarg = "span"
+        node.attrs = {}
+    node.children.append(ch)
+    before = list(ctx.parser_stack)
+    token = ["!!", "!", "||"][tok]
+    if token == "||":
+        double_vbar_fn(ctx, token)
+    else:
+        table_hdr_cell_fn(ctx, token)
+    if len(ctx.parser_stack) != len(before) or any(a is not b for a, b in zip(ctx.parser_stack, before)):
+        return False
+    return all(isinstance(k, str) for k in node.children) and "".join(node.children) == ch + token
+
+
+def replay_sep_inside(inner, open_kind, tok, ch):
+    w = Wtp(quiet=True, quiet_output=True)
+    w.start_page("T")
+    token = ["!!", "!", "||"][tok]
+    opener, closer = {"HTML": ("<span>", "</span>"), "LINK": ("[[", "]]"), "TEMPLATE": ("{{", "}}"), "URL": ("[http://e.org ", "]")}[INNER_KINDS[inner]]
+    lead = "! " if open_kind == 2 else "| "
+    doc = "{|\n|-\n" + lead + "a" + opener + "x" + ch + token + "b" + closer + "z\n|}"
+    root = w.parse(doc)
+    cells = []
+
+    def walk(n):
+        if isinstance(n, WikiNode):
+            if n.kind in (K.TABLE_CELL, K.TABLE_HEADER_CELL):
+                cells.append(n)
+            for c in n.children:
+                walk(c)
+
+    walk(root)
+    bad = len(cells) != 1
+    return ("parse(" + repr(doc) + ")", bad, f"the row has {len(cells)} cells: a cell separator inside an open {INNER_KINDS[inner]} construct ended the cell")
